@@ -163,8 +163,8 @@ func (k *Keeper) Slash(ctx sdk.Context, parameter *types.SlashInputInfo) error {
 	if err != nil {
 		return err
 	}
-	writeFunc()
-	// store the slash information
+	// store the slash information in the same cache context, so that a rejected slash record
+	// (duplicate slash ID, invalid proportion or contract) does not leave the assets slashed.
 	height := ctx.BlockHeight()
 	slashInfo := types.OperatorSlashInfo{
 		SlashType:       parameter.SlashType,
@@ -174,10 +174,11 @@ func (k *Keeper) Slash(ctx sdk.Context, parameter *types.SlashInputInfo) error {
 		SlashProportion: parameter.SlashProportion,
 		ExecutionInfo:   executionInfo,
 	}
-	err = k.UpdateOperatorSlashInfo(ctx, parameter.Operator.String(), parameter.AVSAddr, parameter.SlashID, slashInfo)
+	err = k.UpdateOperatorSlashInfo(cc, parameter.Operator.String(), parameter.AVSAddr, parameter.SlashID, slashInfo)
 	if err != nil {
 		return err
 	}
+	writeFunc()
 	return nil
 }
 
